@@ -182,6 +182,16 @@ theorem spline_extrapolate (f g : SplinePoint) (l : List SplinePoint) (q : Rat) 
     rw [if_neg (by omega), if_neg (by grind), if_neg (by grind), if_pos ⟨hq, trivial⟩]
     simp [pyIndex, linearFunc, hfg]
 
+/-- The point set a spline calibrator works on is what its constructor stores: for points with strictly increasing —
+    more generally pairwise distinct — raw coordinates given in any order, that list is strictly increasing and has
+    exactly the given points, so the interpolation theorems above apply to every constructed calibrator. -/
+theorem constructor_sorts (ps : List SplinePoint) (hd : (ps.map (·.raw)).Nodup) :
+    StrictSorted (sortPoints ps) ∧ ∀ x, x ∈ sortPoints ps ↔ x ∈ ps :=
+  sortPoints_sorted ps hd
+
+theorem constructor_keeps_sorted (ps : List SplinePoint) (h : StrictSorted ps) : sortPoints ps = ps :=
+  sortPoints_of_sorted ps h
+
 /-- Enumerated parameters: the label of the raw value, failing on unlisted values; the raw value is kept. -/
 theorem enumerated (t : PType) (table : List (PyVal × String)) (p : Pkt) (v : Param) (r' : Raw)
     (hk : t.kind = .enum table) (hv : t.enc.parseValue p = .ok (v, r')) :
